@@ -431,6 +431,13 @@ def _c15_network(kind):
             return [1, 2] if ciw.random_choice([0, 1]) == 0 else [1]
         return ciw.create_network(arrival_distributions=[S("a", True), None], service_distributions=[S("s1"), S("s2")], number_of_servers=[1, 1],
                                   routing=R.ProcessBased(route)), {}
+    if kind == "flex_jsq":
+        def route2(ind, simulation):
+            return [[1], [2, 3]]
+        return ciw.create_network(arrival_distributions=[S("a", True), None, None], service_distributions=[S("s1"), S("s2"), S("s3")],
+                                  number_of_servers=[2, 1, 1], routing=R.FlexibleProcessBased(route2, "any", "jsq"),
+                                  batching_distributions=[H.FixedSeq([3], 1), ciw.dists.Deterministic(1), ciw.dists.Deterministic(1)]), \
+            dict(tracker=lambda: ciw.trackers.NodePopulation())
     if kind == "siro":
         return ciw.create_network(arrival_distributions=[S("a", True)], service_distributions=[S("s")], number_of_servers=[1],
                                   service_disciplines=[ciw.disciplines.SIRO], batching_distributions=[H.FixedSeq([3], 1)]), {}
